@@ -23,7 +23,8 @@ EXPLANATION = (
     'condition: the matching line names exactly the pairs whose variable is 1; size, cost pair, squared-cost pair, degree, profile, max and total load '
     'deviation equal the specification measures of (instance denoted by the file, matching line); in the long format every student, project and lecturer '
     'appears exactly once with the implied assignees, occupancy, capacity and target terms. Short and long are produced from the same state (also checks that '
-    'the second call agrees with the first).')
+    'the second call agrees with the first). With -stab the printed stability_correct value must equal "the printed matching has no blocking pair" '
+    '(the values are arbitrary 0/1 vectors, so both verdicts occur).')
 ASSUMPTIONS = ['reported values are 0/1 with at most one project per student (guaranteed for real runs by C01)',
                'wall clock replaced by a non-decreasing symbolic clock; no time limit']
 LEVEL_TEXT = ('Path-exhaustive symbolic execution of the real result formatting per shape with symbolic values, quotas and targets; every printed number is '
@@ -36,8 +37,8 @@ NUM = r'(-?\d+|@S\d+@)'
 
 
 def BOUNDS(tier):
-    return ('shapes: corner set + one 10-project shape + %s; flags: {}, -pc, -twopl, -twopl -pc%s; all 0/1 value vectors with at most one project per student; '
-            'targets/quotas symbolic' % (('10 seeded random ns<=3', '') if tier == 'quick' else ('80 seeded random ns<=4', ', -twopl -stab')))
+    return ('shapes: corner set + one 10-project shape + %s; flags: {}, -pc, -twopl, -twopl -pc, -twopl -stab (small shapes%s); all 0/1 value vectors with at most one project per student; '
+            'targets/quotas symbolic' % (('10 seeded random ns<=3', '') if tier == 'quick' else ('80 seeded random ns<=4', ' and all ns<=3')))
 
 
 def wide_shape():
@@ -52,7 +53,7 @@ def tasks(tier, seed):
     out = []
     for I in shs:
         fl = [[], ['pc']] + ([['twopl'], ['twopl', 'pc']] if I.lprefs is not None else [])
-        if tier == 'thorough' and I.lprefs is not None and I.ns <= 3:
+        if I.lprefs is not None and (I.ns <= 3 if tier == 'thorough' else sum(len(g) for gs in I.prefs for g in gs) <= 4):
             fl.append(['twopl', 'stab'])
         for flags in fl:
             out.append({'shape': lpchecks.shape_data(I), 'flags': flags})
@@ -105,6 +106,8 @@ class Reader:
         r['profile'] = [self.num(t) for t in m.group(1).split()] if m else None
         m = one(r'^pulp_status: (.*)$')
         r['status'] = m.group(1) if m else None
+        m = one(r'^stability_correct: (\w+)$')
+        r['stability_correct'] = m.group(1) if m else None
         return r
 
     def section(self, text, title, next_titles):
@@ -119,7 +122,7 @@ class Reader:
         return [l for l in body.split('\n') if l.strip() and not l.startswith('#')]
 
 
-def claims_for(J, x, text, tokens, long_format, pcond):
+def claims_for(J, x, text, tokens, long_format, pcond, stab=False):
     """list of (name, python bool or z3 claim)"""
     rd = Reader(tokens)
     r = rd.parse(text)
@@ -141,6 +144,14 @@ def claims_for(J, x, text, tokens, long_format, pcond):
             cl.append((name + ' printed', False))
         else:
             cl.append((name, printed == (want if z3.is_expr(want) else z3.IntVal(want))))
+    if stab:
+        # the printed verdict must be the truth about the PRINTED matching (C06 through the real get_results)
+        xz0 = {k: z3.IntVal(v) for k, v in xm.items()}
+        st = spec.stable(J, xz0, Z)
+        if r['stability_correct'] not in ('True', 'False'):
+            cl.append(('stability_correct printed', False))
+        else:
+            cl.append(('stability_correct equals "printed matching has no blocking pair"', st if r['stability_correct'] == 'True' else z3.Not(st)))
     same('size', r['size'], spec.size(J, xm, P))
     cs, cll = spec.cost(J, xm, P)
     if r['cost'] is None:
@@ -265,8 +276,8 @@ def run_task(task):
             J = spec.Inst(J.na, J.ns, J.np, J.nl, J.prefs, J.plec, None, J.plq, J.puq, J.llq, J.lt, J.luq)
         x = p.notes['x']
         t1, t2, t3 = p.result
-        allc = [('short: ' + a, b) for a, b in claims_for(J, x, t1, p.tokens, False, p.pc)]
-        allc += [('long: ' + a, b) for a, b in claims_for(J, x, t2, p.tokens, True, p.pc)]
+        allc = [('short: ' + a, b) for a, b in claims_for(J, x, t1, p.tokens, False, p.pc, 'stab' in flags)]
+        allc += [('long: ' + a, b) for a, b in claims_for(J, x, t2, p.tokens, True, p.pc, 'stab' in flags)]
         allc += [('default getter equals short', t3 == t1)]
         res['nontrivial'] += 1
         # one query for the conjunction; individual queries only when it is refuted
